@@ -61,7 +61,7 @@ func init() {
 			return "search-of-missing-directory-succeeded"
 		}
 		pgdump.Search("/nonexistent/pgdata", nil)
-		if core.Atoi(args[4]) <= 50 {
+		if core.Atoi(args[4]) <= 2000 {
 			theScanner().ScanDumpResult(dump)
 		}
 		return "ok"
